@@ -56,7 +56,7 @@ HIST_CFGS = [
     {"autoescape": False, "extra": True}, {"autoescape": True, "extra": True},
     {"autoescape": False, "extra": True, "loader": "cdict"}, {"autoescape": False, "extra": True, "mode": "lax"},
 ]
-HIST_PARTIALS = {"inc": "<{{ v }}:{{ v | date: '%H' }}>"}
+HIST_PARTIALS = {"inc": "<{{ v }}:{{ v | date: '%H' }}>", **{f"t{i}": src for i, src in enumerate(HIST_TEMPLATES)}}
 
 
 def snap(x):
@@ -101,12 +101,28 @@ def fingerprint(obj, depth: int = 0, seen=None):
     return out
 
 
+def _step(env, src: str, data: dict, load) -> tuple:
+    """One step of a history: parse from text, or fetch by name (with or without request globals), then render."""
+    d = gd.decode(data)
+    if not load:
+        return oc.short(oc.outcome_of(lambda: env.from_string(src).render(**d)))
+    name = "t" + str(HIST_TEMPLATES.index(src))
+    if load == "globals":
+        # v and f travel with the request, the rest with the render
+        g = {k: d[k] for k in ("v", "f")}
+        rest = {k: d[k] for k in d if k not in g}
+        return oc.short(oc.outcome_of(lambda: env.get_template(name, globals=g).render(**rest)))
+    if load == "bare":
+        rest = {k: d[k] for k in d if k not in ("v", "f")}
+        return oc.short(oc.outcome_of(lambda: env.get_template(name).render(**rest)))
+    return oc.short(oc.outcome_of(lambda: env.get_template(name).render(**d)))
+
+
 def eval_alone(payload) -> tuple:
     """(b) oracle: one render in a pristine process / fresh environment."""
-    cfg, src, data, partials = payload
+    cfg, src, data, partials, *rest = payload
     env = envs.make_env(cfg, partials)
-    o = oc.outcome_of(lambda: env.from_string(src).render(**gd.decode(data)))
-    return oc.short(o)
+    return _step(env, src, data, rest[0] if rest else None)
 
 
 def evaluate(case) -> Verdict:
@@ -151,20 +167,20 @@ def evaluate(case) -> Verdict:
         env = envs_by_cfg[key]
         src = HIST_TEMPLATES[st_["t"] % len(HIST_TEMPLATES)]
         data = {"v": st_["v"], "w": st_["w"], "f": st_["f"], "lst": st_["lst"]}
-        gots.append((cfg, src, data, oc.short(oc.outcome_of(lambda: env.from_string(src).render(**gd.decode(data))))))
+        gots.append((cfg, src, data, _step(env, src, data, st_.get("load"))))
     # pass 2: every step evaluated alone
     for i, (cfg, src, data, got) in enumerate(gots):
         st_ = steps[i]
         if case.get("isolation") == "process":
-            want = tuple(isolate.isolated("vf.props.c17_purity", "eval_alone", (cfg, src, data, HIST_PARTIALS)))
+            want = tuple(isolate.isolated("vf.props.c17_purity", "eval_alone", (cfg, src, data, HIST_PARTIALS, st_.get("load"))))
         else:
             _clear_known_caches()
-            want = eval_alone((cfg, src, data, HIST_PARTIALS))
+            want = eval_alone((cfg, src, data, HIST_PARTIALS, st_.get("load")))
         if tuple(got) != tuple(want):
             tname = src[:40]
             v.fail(
                 f"history-dependent:{'date' if 'date' in src else tname}",
-                f"step {i}: {src!r} with {data!r:.200} in a used environment -> {got!r:.120}, alone -> {want!r:.120}; "
+                f"step {i}: {src!r} ({st_.get('load') or 'from_string'}) with {data!r:.200} in a used environment -> {got!r:.120}, alone -> {want!r:.120}; "
                 f"history={[(s['t'] % len(HIST_TEMPLATES), s['v']) for s in steps[:i]]!r:.300}",
             )
             break
@@ -229,6 +245,8 @@ def histories(draw, isolation="caches"):
     r = core.rng(draw)
     steps = []
     t = r.randrange(len(HIST_TEMPLATES))
+    by_name = r.random() < 0.3
+    by_name_cfg = r.choice([2, 2, 0])
     for _ in range(r.randint(2, 8)):
         if r.random() < 0.4:
             t = r.randrange(len(HIST_TEMPLATES))
@@ -237,6 +255,10 @@ def histories(draw, isolation="caches"):
             "t": t, "v": r.choice(HIST_VALUES), "w": r.choice(HIST_VALUES), "f": r.choice(FORMATS),
             "lst": r.choice([[3, 1, 2], [1, 1.0, True], [{"a": 1}, {"a": 2}], []]),
         })
+        if by_name:
+            # the template is fetched by name: data that travels with the request must not outlive it
+            steps[-1]["load"] = r.choice(["globals", "globals", "bare", "bare", "args"])
+            steps[-1]["cfg"] = by_name_cfg
     return {"kind": "history", "steps": steps, "isolation": isolation}
 
 
